@@ -180,7 +180,7 @@ func (r *vrfRef) compare(st storage.Store, box string, now time.Time, steps map[
 // number of times) - compared after every step with a reference model: every mailbox lists the same
 // messages in arrival order with the same ids, metadata, flags, sizes and content; removed, purged,
 // evicted and expired messages stay gone; one deleted event per departure.
-func VerifC10History(k int, mcap int) {
+func VerifC10History(k int, mcap int, pre int) {
 	dir := vrf.VfsTempDir()
 	defer os.RemoveAll(dir)
 	host := extension.NewHost()
@@ -199,6 +199,19 @@ func VerifC10History(k int, mcap int) {
 	ref := &vrfRef{boxes: map[string][]vrfRefMsg{}, touched: map[string]int{}}
 	steps := map[string]int{}
 	names := vrfNames()
+	if pre > 0 {
+		// concrete prelude: one fresh message in each mailbox (steps 8 and 9 for the dates)
+		for i, nm := range names {
+			sfx := string(rune('8' + i))
+			b0 := vrf.Byte("byte" + sfx)
+			nid, aerr := st.AddMessage(&vrfIn{mailbox: nm, subject: "s" + sfx, from: &mail.Address{Address: "fs" + sfx + "@x"},
+				to: []*mail.Address{{Name: "T", Address: nm}}, date: vrfDate(now, false, 8+i), src: []byte{b0, '\n'}})
+			vrf.Assert("add-noerr", aerr == nil)
+			ref.issued = append(ref.issued, nid)
+			steps[nid] = 8 + i
+			ref.boxes[nm] = append(ref.boxes[nm], vrfRefMsg{id: nid, subj: "s" + sfx, b0: b0})
+		}
+	}
 	for step := 1; step <= k; step++ {
 		sfx := string(rune('0' + step))
 		op := vrf.Fork(vrf.Choose("op"+sfx, 8))
